@@ -111,7 +111,8 @@ pub fn gen_kern(rng: &mut Rng, n: usize, k: usize, keep_dangling: bool) -> KernC
         let mut kerns: BTreeMap<(KS, KS), f64> = BTreeMap::new();
         let empty = rng.chance(1, 8);
         if !empty {
-            let keep = *rng.pick(&[10usize, 8, 5]);
+            // some masters kern only a few of the pairs (so that some of their groups are not referenced at all)
+            let keep = *rng.pick(&[10usize, 8, 5, 2]);
             for (key, bv) in keys.iter().zip(&base_vals) {
                 if rng.below(10) < keep {
                     let v = if rng.chance(1, 2) { *bv } else { gen_value(rng) };
